@@ -540,6 +540,18 @@ func (a *attack) apply(op Op) {
 					}
 				}
 			}
+		case "add-trusted-first", "add-trusted-last":
+			if ki != nil {
+				if xd := ki.FindElement("./X509Data"); xd != nil {
+					n := etree.NewElement("ds:X509Certificate")
+					n.SetText(fix.Get("idp").CertB64())
+					if op.Mode == "add-trusted-first" && len(xd.Child) > 0 {
+						xd.InsertChildAt(0, n)
+					} else {
+						xd.AddChild(n)
+					}
+				}
+			}
 		case "rsakeyvalue":
 			if ki == nil {
 				ki = sig.CreateElement("ds:KeyInfo")
@@ -576,6 +588,10 @@ func (a *attack) apply(op Op) {
 			spec.KeyInfo = "cert:idp"
 		case "no-keyinfo":
 			spec.KeyInfo = "none"
+		case "chain-own-then-trusted":
+			spec.KeyInfo = "chain:" + key + ",idp"
+		case "chain-trusted-then-own":
+			spec.KeyInfo = "chain:idp," + key
 		}
 		// sign a detached copy context-free: the element stays in place, Sign works on it directly
 		if _, err := forge.Sign(t, spec, false); err == nil {
@@ -643,6 +659,35 @@ func (a *attack) apply(op Op) {
 			t.CreateAttr("xmlns", ns)
 		}
 		a.note("foreignns %s mode=%s", t.Tag, op.Mode)
+	case "fakesig":
+		// an element merely *named* Signature (foreign / no / right namespace, empty or copied content)
+		t := pick(byTag(a.root, "Response", "Assertion", "ArtifactResponse"), op.I)
+		if t == nil {
+			return
+		}
+		var f *etree.Element
+		switch op.Mode {
+		case "evil-ns":
+			f = etree.NewElement("ev:Signature")
+			f.CreateAttr("xmlns:ev", "urn:evil:namespace")
+		case "no-ns":
+			f = etree.NewElement("Signature")
+		case "dsig-empty":
+			f = etree.NewElement("ds:Signature")
+			f.CreateAttr("xmlns:ds", forge.NSDsig)
+		default: // copy of a real signature under a foreign namespace
+			src := pick(byTag(a.root, "Signature"), op.J)
+			if src == nil {
+				f = etree.NewElement("ev:Signature")
+				f.CreateAttr("xmlns:ev", "urn:evil:namespace")
+			} else {
+				f = src.Copy()
+				f.Space = "ev"
+				f.CreateAttr("xmlns:ev", "urn:evil:namespace")
+			}
+		}
+		forge.PlaceSignature(t, f, op.Where == "last")
+		a.note("fakesig on %s mode=%s", t.Tag, op.Mode)
 	case "encrypt":
 		t := pick(byTag(a.root, "Assertion"), op.I)
 		if t == nil || t == a.root {
@@ -805,7 +850,7 @@ var whereGrid = []string{"child-last", "child-first", "in-signature-object", "in
 var sigGrid = []string{"keep-in-genuine", "copy-to-evil", "move-to-evil"}
 
 func genOp(t *rapid.T) Op {
-	kind := rapid.SampledFrom([]string{"xsw", "xsw", "xsw", "evilize", "evilize", "copy", "move", "remove", "remove", "splice", "setid", "refuri", "keyinfo", "resign", "resign", "comment", "foreignns", "encrypt", "encrypt"}).Draw(t, "kind")
+	kind := rapid.SampledFrom([]string{"xsw", "xsw", "xsw", "evilize", "evilize", "copy", "move", "remove", "remove", "splice", "setid", "refuri", "keyinfo", "resign", "resign", "comment", "foreignns", "fakesig", "encrypt", "encrypt"}).Draw(t, "kind")
 	op := Op{Kind: kind, I: rapid.IntRange(0, 11).Draw(t, "i"), J: rapid.IntRange(0, 23).Draw(t, "j")}
 	switch kind {
 	case "xsw":
@@ -822,14 +867,17 @@ func genOp(t *rapid.T) Op {
 	case "refuri":
 		op.Mode = rapid.SampledFrom([]string{"other", "empty", "remove", "root"}).Draw(t, "mode")
 	case "keyinfo":
-		op.Mode = rapid.SampledFrom([]string{"remove", "attacker-cert", "add-attacker-first", "add-attacker-last", "rsakeyvalue", "encryption-cert"}).Draw(t, "mode")
+		op.Mode = rapid.SampledFrom([]string{"remove", "attacker-cert", "add-attacker-first", "add-attacker-last", "add-trusted-first", "add-trusted-last", "rsakeyvalue", "encryption-cert"}).Draw(t, "mode")
 	case "resign":
 		op.Key = rapid.SampledFrom([]string{"attacker", "attacker", "idpenc", "idpec"}).Draw(t, "key")
-		op.Mode = rapid.SampledFrom([]string{"own-cert", "claim-trusted-cert", "no-keyinfo", "rsakeyvalue"}).Draw(t, "mode")
+		op.Mode = rapid.SampledFrom([]string{"own-cert", "claim-trusted-cert", "no-keyinfo", "rsakeyvalue", "chain-own-then-trusted", "chain-trusted-then-own"}).Draw(t, "mode")
 	case "comment":
 		op.Mode = rapid.SampledFrom([]string{"comment", "comment", "pi", "cdata"}).Draw(t, "mode")
 	case "foreignns":
 		op.Mode = rapid.SampledFrom([]string{"evil-ns", "no-ns", "rebind-prefix", "default-ns"}).Draw(t, "mode")
+	case "fakesig":
+		op.Mode = rapid.SampledFrom([]string{"evil-ns", "no-ns", "dsig-empty", "copy-foreign"}).Draw(t, "mode")
+		op.Where = rapid.SampledFrom([]string{"after-issuer", "last"}).Draw(t, "pos")
 	case "encrypt":
 		op.Mode = rapid.SampledFrom([]string{"plain", "plain", "hazard-prefix", "hazard-suffix", "hazard-inside", "raw-splice"}).Draw(t, "mode")
 		if op.Mode == "raw-splice" {
@@ -941,7 +989,7 @@ func enumUntrusted(_ string, emit func(Case)) {
 			for _, key := range []string{"attacker", "idpenc", "idp2", "idpec"} {
 				for _, layout := range []string{"resp", "assert", "both", "neither"} {
 					for _, enc := range []bool{false, true} {
-						for _, ki := range []string{"", "none", "cert:idp"} {
+						for _, ki := range []string{"", "none", "cert:idp", "chain:" + key + ",idp", "chain:idp," + key} {
 							if (trust == "fp256" || trust == "fp512") && ki == "none" {
 								continue
 							}
@@ -964,6 +1012,45 @@ func enumUntrusted(_ string, emit func(Case)) {
 	}
 }
 
+// enumFakeSignatures: unsigned (or attacker-signed) messages carrying elements merely named
+// Signature in foreign / no / the right namespace on the Response and/or the Assertion,
+// with the forged assertion in clear or encrypted to the SP.
+func enumFakeSignatures(_ string, emit func(Case)) {
+	modes := []string{"evil-ns", "no-ns", "dsig-empty", "copy-foreign"}
+	for _, trust := range []string{"meta1", "pinned", "fp256"} {
+		for _, entry := range []string{"xml", "artifact"} {
+			for _, signer := range []string{"", "attacker"} {
+				for _, target := range []int{0, 1} { // Response, Assertion (document order of the candidates)
+					for _, m := range modes {
+						for _, pos := range []string{"after-issuer", "last"} {
+							for _, enc := range []string{"", "plain", "sibling"} {
+								g := Genuine{NAssert: 1, AsrtSigner: []string{signer}, Encrypted: []bool{false}}
+								c := Case{Trust: trust, Entry: entry, G: g, G2: m == "copy-foreign"}
+								ti := target
+								if entry == "artifact" {
+									ti = target + 1 // ArtifactResponse comes first
+								}
+								c.Ops = []Op{{Kind: "evilize", I: 0}, {Kind: "fakesig", I: ti, Mode: m, Where: pos}}
+								if m == "copy-foreign" {
+									c.Ops = append([]Op{{Kind: "splice", I: 1, J: 0}}, c.Ops...)
+								}
+								if enc != "" {
+									o := Op{Kind: "encrypt", I: 0, Mode: "plain", Key: "replace"}
+									if enc == "sibling" {
+										o.Where = "sibling"
+									}
+									c.Ops = append(c.Ops, o)
+								}
+								emit(c)
+							}
+						}
+					}
+				}
+			}
+		}
+	}
+}
+
 var prop = &pbt.Prop[Case]{
 	ID: "C01",
 	Rule: "cases: a message built and signed by the harness (layouts Response/Assertion/both/neither/first-only signed, 1-2 assertions, plain or encrypted to the SP, signer in {trusted, second trusted, IdP encryption-only key, untrusted key with the same subject DN}, several signature methods, canonicalisers and KeyInfo styles, optionally inside a signed/unsigned ArtifactResponse) " +
@@ -974,7 +1061,7 @@ var prop = &pbt.Prop[Case]{
 	Gen:   gen,
 	Check: check,
 	Reset: fix.Reset,
-	Enums: []pbt.Enum[Case]{{Name: "xsw-placement-grid", Each: enumXSWGrid}, {Name: "untrusted-signers", Each: enumUntrusted}},
+	Enums: []pbt.Enum[Case]{{Name: "xsw-placement-grid", Each: enumXSWGrid}, {Name: "untrusted-signers", Each: enumUntrusted}, {Name: "fake-signature-elements", Each: enumFakeSignatures}},
 	Assumptions: []string{
 		"absence of an accepting forgery is shown only for the generated program space",
 		"the dsig clock is pinned inside the fixtures' certificate validity",
